@@ -4,7 +4,7 @@ from __future__ import annotations
 import itertools
 
 from . import gen
-from .common import Batch, Result, canon_json, conv_tree, load_corpus, raw_parse, render_doc, rng_for
+from .common import REPO, Batch, Result, canon_json, conv_tree, load_corpus, raw_parse, render_doc, rng_for
 
 
 def tables_of(p):
@@ -163,11 +163,34 @@ def run(ctx):
                     one(p2, w2, t2, m, lab)
             res.count("siblings")
 
+    from . import decsmall
+
+    def acyclic(p, m, path=()):
+        if m in path:
+            return False
+        try:
+            modes = p.list_decay_modes(m)
+        except Exception:
+            return True
+        return all(acyclic(p, d, path + (m,)) for fs in modes for d in fs)
+
+    for doc in decsmall.docs(3, (seed % 16, 16) if tier == "quick" else (0, 1)):
+        text = render_doc(doc)
+        try:
+            p = DecFileParser.from_string(text)
+            p.parse()
+        except Exception:
+            res.skipped += 1
+            continue
+        for m in dict.fromkeys(p.list_decay_mother_names()):
+            if acyclic(p, m):
+                one(p, doc, text, m, "small-scope")
+        res.count("small_scope_documents")
     import glob
 
-    files = sorted(glob.glob("/repo/tests/data/*.dec"))
+    files = sorted(glob.glob(REPO + "/tests/data/*.dec"))
     if tier == "thorough":
-        files += ["/repo/src/decaylanguage/data/DECAY_LHCB.DEC"]
+        files += [REPO + "/src/decaylanguage/data/DECAY_LHCB.DEC"]
     for f in files:
         try:
             p = DecFileParser(f)
